@@ -84,8 +84,17 @@ def run(rec):
     keys_b = [1, 2, 3, N - 2, N - 1, (N - 1) // 2, (N + 1) // 2] + [1 << k for k in (1, 7, 8, 63, 64, 127, 128, 255)]
     hashes_b = [bytes(32), b"\xff" * 32, (N - 1).to_bytes(32, "big"), N.to_bytes(32, "big"), (N + 1).to_bytes(32, "big"),
                 (1).to_bytes(32, "big"), (P - 1).to_bytes(32, "big"), (1 << 255).to_bytes(32, "big")]
+    # keys and hashes tied to the curve's endomorphism eigenvalues (cube roots of unity mod N) and to small integers
+    from . import curvegen as CG
+    lam_sc = [k % N for k in CG.endo_scalars(N) if 0 < k % N < N]
+    keys_b += lam_sc[:14] + list(range(4, 20))
+    hashes_b += [(k % N).to_bytes(32, "big") for k in lam_sc[:6]] + [((N - k) % N).to_bytes(32, "big") for k in lam_sc[:6]]
     i = 0
     cases = []
+    for d in lam_sc:
+        cases.append((d, rng.randbytes(32), "key:endomorphism-eigenvalue"))
+    for hb in hashes_b[-12:]:
+        cases.append((rng.randrange(1, N), hb, "hash:endomorphism-eigenvalue"))
     for d in keys_b:
         for h in hashes_b:
             cases.append((d, h, "key:boundary"))
